@@ -14,6 +14,8 @@ import (
 	"sort"
 	"strconv"
 	"strings"
+	"sync"
+	"sync/atomic"
 	"testing"
 
 	"github.com/sirupsen/logrus"
@@ -272,6 +274,8 @@ func (w *world) exec(op string) string {
 			types, _ := hx.KV(ws, "types")
 			names, _ := hx.KV(ws, "names")
 			return dump(w.dir, splitList(types), splitList(names))
+		case "stress":
+			return stress(hx.KVInt(ws, "n"))
 		case "dir":
 			if !w.ordered && w.rc != nil && hasDupIds(w.rc.last) {
 				return "dupids"
@@ -365,6 +369,92 @@ func (w *world) exec(op string) string {
 		}
 		return "bad-op"
 	})
+}
+
+// ---------------------------------------------------------------- reader/updater smoke run
+
+// stress alternates two member lists through the real UpdateClusterTopology while reader
+// goroutines query the same directory without any lock (as TestSync does); every answer must
+// be the answer of one of the two completely built views.  A smoke test only: the theorem
+// read_sees_whole_view covers all interleavings of the model.
+func stress(n int) string {
+	a := []*cluster.Member{{Id: "c@n1", Host: "h1", Port: 7001, State: 1, Services: []string{"gate.g1", "gate.g2"}}}
+	b := []*cluster.Member{
+		{Id: "c@n2", Host: "h2", Port: 7002, State: 1, Services: []string{"chat.c1", "logic.g1"}},
+		{Id: "c@n3", Host: "h3", Port: 7003, State: 2, Services: []string{"chat.c2"}},
+	}
+	queries := []func(c *app.Cluster) string{
+		func(c *app.Cluster) string { return showList("T", "gate", c.GetServiceList("gate")) },
+		func(c *app.Cluster) string { return showList("T", "chat", c.GetServiceList("chat")) },
+		func(c *app.Cluster) string { return showList("W", "gate", c.GetWorkServiceList("gate")) },
+		func(c *app.Cluster) string { return showList("W", "chat", c.GetWorkServiceList("chat")) },
+		func(c *app.Cluster) string {
+			if it := c.GetService("g1"); it != nil {
+				return showItem(it)
+			}
+			return "none"
+		},
+		func(c *app.Cluster) string {
+			if it := c.GetService("c2"); it != nil {
+				return showItem(it)
+			}
+			return "none"
+		},
+		func(c *app.Cluster) string { x := c.GetWorkServiceNames(); sort.Strings(x); return strings.Join(x, ",") },
+		func(c *app.Cluster) string {
+			var ids []string
+			for id := range c.GetMembers() {
+				ids = append(ids, id)
+			}
+			sort.Strings(ids)
+			return strings.Join(ids, ",")
+		},
+	}
+	ca, cb := app.NewCluster(), app.NewCluster()
+	ca.UpdateClusterTopology(a)
+	cb.UpdateClusterTopology(b)
+	wantA, wantB := make([]string, len(queries)), make([]string, len(queries))
+	for i, q := range queries {
+		wantA[i], wantB[i] = q(ca), q(cb)
+	}
+	shared := app.NewCluster()
+	shared.UpdateClusterTopology(a)
+	var stop atomic.Bool
+	var wg sync.WaitGroup
+	results := make([]string, 4)
+	for r := 0; r < len(results); r++ {
+		wg.Add(1)
+		go func(r int) {
+			defer wg.Done()
+			defer func() {
+				if e := recover(); e != nil {
+					results[r] = "panic"
+				}
+			}()
+			for i := 0; !stop.Load(); i++ {
+				k := (i + r) % len(queries)
+				if got := queries[k](shared); got != wantA[k] && got != wantB[k] {
+					results[r] = fmt.Sprintf("mixed:query%d", k)
+					return
+				}
+			}
+		}(r)
+	}
+	for i := 0; i < n; i++ {
+		if i%2 == 0 {
+			shared.UpdateClusterTopology(b)
+		} else {
+			shared.UpdateClusterTopology(a)
+		}
+	}
+	stop.Store(true)
+	wg.Wait()
+	for _, x := range results {
+		if x != "" {
+			return x
+		}
+	}
+	return "ok"
 }
 
 // ---------------------------------------------------------------- generator
@@ -523,7 +613,7 @@ func (g *gen) listing(nn int) string {
 	return s
 }
 
-const dirOp = "dir types=gate,chat,logic,zz names=g1,g2,g9,c1,c2,l1,l2,g00,g10,c11,l21,q"
+const dirOp = "dir types=gate,chat,logic,zz names=g1,g2,g9,c1,c2,l1,l2,g00,g01,g10,g11,g20,g30,c00,c10,c11,c20,c30,l00,l10,l21,l30,q"
 
 // classify counts structural features of a batching (for the generator histogram)
 func (g *gen) classify(op string) {
@@ -773,6 +863,11 @@ func TestRun(t *testing.T) {
 	g.exhaustive(hx.EnvInt("VERIF_EXH", 2))
 	g.randomCases(n)
 	g.mkCases(n)
+	rs := "reset name=c id=n0 host=h0 port=7000 state=1 svcs=gate.g0"
+	h.Emit(rs, w.exec(rs))
+	op := fmt.Sprintf("stress n=%d", hx.EnvInt("VERIF_STRESS", 3000))
+	h.Count("stress")
+	h.Emit(op, w.exec(op))
 }
 
 // TestExhaustive: all histories of <= VERIF_EXH events over the 10-event alphabet,
